@@ -741,3 +741,104 @@ def shp2(units, R, fname='sort_object'):
          not bad, '%d arrangements of keys x 2 flag values' % (n_cases // 2) if not bad else '%s (%d of %d cases wrong)' % (bad[0], len(bad), n_cases),
          key='sort:' + fname)
     R.floor('SHP2', 'key arrangements sorted', n_cases, 100)
+
+
+# ---- SHP3: the queries (bounded) ------------------------------------------------------------------------------------
+
+def shp3(units, R, names=None):
+    """The read-only queries of cJSON.c against the list model, on every list of up to five elements: the element at an index
+    (every index from one below to two beyond the range), the size, and lookup by key - for every arrangement of keys from
+    {a, A, b} on objects of up to four members and every name from {a, A, b, c}, both settings of the case flag, the member
+    returned is the first one whose key equals the name (exactly / after ASCII case folding) or NULL; nothing is written.
+    The walks of these functions are governed by the index and by the keys alone, but they are loops, so like SHP2 this is a
+    bounded statement about short lists; it is kept because first-match, off-by-one and NULL-at-the-end mistakes show there."""
+    import itertools
+    u = units['cJSON.c']
+    want = names or ('get_array_item', 'cJSON_GetArrayItem', 'cJSON_GetArraySize', 'get_object_item')
+    n_fn = 0
+    for fname in want:
+        if fname not in u.functions:
+            raise AnalysisBroken('SHP3: query %s not found in cJSON.c' % fname)
+        fn = u.functions[fname]
+        for x in fn.nodes():
+            if x.get('k') == 'bin' and x['op'] in ASSIGN_OPS and strip_casts(x['l']).get('k') == 'mem':
+                raise AnalysisBroken('SHP3: %s stores through a pointer: not a query' % fn.where(x))
+        bad = []
+        n_cases = 0
+        params = [p['n'] for p in fn.params]
+        by_index = len(fn.params) == 2 and u.ty(fn.params[1]['ty'])['c'] == 'int'
+        by_key = len(fn.params) >= 2 and u.ty(fn.params[1]['ty'])['c'] == 'ptr'
+        signed = by_index and not u.ty(fn.params[1]['ty']).get('unsigned')
+        if by_index:
+            for n in range(0, 6):
+                for idx in range(-1 if signed else 0, n + 3):
+                    n_cases += 1
+                    heap = Heap()
+                    parent, el = _make_list(heap, n)
+                    before = _snapshot(heap)
+                    try:
+                        r = Interp(units, heap).call(fname, [parent, idx])
+                        exp = el[idx] if 0 <= idx < n else None
+                        if r != exp:
+                            raise ShapeViolation('returned %s, the model has %s' % (heap.name(r), heap.name(exp)))
+                        if _snapshot(heap) != before:
+                            raise ShapeViolation('the list was modified')
+                    except ShapeViolation as v:
+                        bad.append('index %d of %d element(s): %s' % (idx, n, v))
+            # no container at all
+            n_cases += 1
+            try:
+                if Interp(units, Heap()).call(fname, [None, 0]) is not None:
+                    raise ShapeViolation('an element of no array')
+            except ShapeViolation as v:
+                bad.append('NULL array: %s' % v)
+        elif by_key:
+            alphabet = [b'a', b'A', b'b']
+            flagged = len(fn.params) >= 3
+            for n in range(0, 5):
+                for keys in itertools.product(alphabet, repeat=n):
+                    for name in (b'a', b'A', b'b', b'c'):
+                        for cs in ((1, 0) if flagged else (1,)):
+                            n_cases += 1
+                            heap = Heap()
+                            parent, el = _make_list(heap, n, kind=OBJECT)
+                            for p_, k in zip(el, keys):
+                                heap.nodes[p_[1]]['string'] = ('str', k)
+                            before = _snapshot(heap)
+                            try:
+                                r = Interp(units, heap).call(fname, [parent, ('str', name)] + ([cs] if flagged else []))
+                                exp = None
+                                for p_, k in zip(el, keys):
+                                    if (k == name) if cs else (k.lower() == name.lower()):
+                                        exp = p_
+                                        break
+                                if r != exp:
+                                    raise ShapeViolation('returned %s, the first match is %s' % (heap.name(r), heap.name(exp)))
+                                if _snapshot(heap) != before:
+                                    raise ShapeViolation('the object was modified')
+                            except ShapeViolation as v:
+                                bad.append('keys %s, name %s, case_sensitive=%d: %s' % (','.join(k.decode() for k in keys), name.decode(), cs, v))
+        else:
+            for n in range(0, 6):
+                n_cases += 1
+                heap = Heap()
+                parent, el = _make_list(heap, n)
+                before = _snapshot(heap)
+                try:
+                    r = Interp(units, heap).call(fname, [parent])
+                    if r != n:
+                        raise ShapeViolation('returned %r' % (r,))
+                    if _snapshot(heap) != before:
+                        raise ShapeViolation('the list was modified')
+                except ShapeViolation as v:
+                    bad.append('%d element(s): %s' % (n, v))
+            n_cases += 1
+            try:
+                if Interp(units, Heap()).call(fname, [None]) != 0:
+                    raise ShapeViolation('a size of no array')
+            except ShapeViolation as v:
+                bad.append('NULL array: %s' % v)
+        n_fn += 1
+        R.ob('SHP3', fn, None, '%s answers like the list model on short lists' % fname, not bad,
+             '%d cases' % n_cases if not bad else '%s (%d of %d cases wrong)' % (bad[0], len(bad), n_cases), key='query:' + fname)
+    R.floor('SHP3', 'queries evaluated', n_fn, 1)
